@@ -9,6 +9,7 @@ MCKeys == 1..NKeys
 MCMembers == 1..NMembers
 MCVals == 1..NVals
 MCActorOf == [r \in MCReps |-> r]
+MCActorOfShared == [r \in MCReps |-> IF r <= 2 THEN 1 ELSE r]
 MCDesc ==
   CASE DescName = "mv"     -> [t |-> "mv"]
     [] DescName = "or"     -> [t |-> "or"]
@@ -89,6 +90,7 @@ Line ==
    vop |-> [q \in Reps |-> [i \in 1..Len(ops') |-> ExpValidate(ops', know'[q], i)]],
    vopB |-> [q \in Reps |-> [i \in 1..Len(ops') |-> MapValidateOp(ValDesc, st'[q], ops'[i].op)]],
    vm  |-> [q \in Reps |-> MapValidateMerge(ValDesc, st'[r], st'[q])],
+   vmA |-> [q \in Reps |-> IF ActorOf = MCActorOf THEN "Ok" ELSE ExpVM(st'[r], st'[q])],
    ob  |-> Oblig(r),
    rs  |-> IF DumpReset
            THEN [i \in 1..Len(CUSeq) |-> <<CUSeq[i], ProjB(MapReset(ValDesc, st'[r], CUSeq[i]))>>]
